@@ -870,9 +870,22 @@ func (r *runT) runLoad(l *loadT) (o loadObs) {
 		} else {
 			_ = os.WriteFile(p, blockYAML(r.race[0].M), 0o600)
 		}
-		errB = r.safeLoad(context.WithValue(context.Background(), loaderKey{}, 1), &o)
+		// the second loader runs to completion — unless the code serialises or coalesces Loads in front of the sources,
+		// in which case it cannot finish while the first is held: same adaptive wait as the barrier of the other races
+		doneB := make(chan struct{})
+		go func() {
+			defer close(doneB)
+			errB = r.safeLoad(context.WithValue(context.Background(), loaderKey{}, 1), &o)
+		}()
+		select {
+		case <-doneB:
+		case <-time.After(barrierWait()):
+			barrierMissed.Add(1)
+			barrierEver.Store(true)
+		}
 		close(release)
 		<-doneA
+		<-doneB
 		_ = held
 		r.holds[0].hold = nil
 		o.failB = errB != nil
